@@ -23,7 +23,12 @@ def _parts(prop, dq, dt):
                  quick=dict(args=['prop=' + prop, 'depth=%d' % dq], deadline=100),
                  thorough=dict(args=['prop=' + prop, 'depth=%d' % dt], deadline=800)),
             dict(name='send-vs-receive', harness='c25_senders', variant='schedp', inproc=True,
-                 quick=dict(args=sr[0], deadline=60), thorough=dict(args=sr[1], deadline=500))]
+                 quick=dict(args=sr[0], deadline=60), thorough=dict(args=sr[1], deadline=500))] + ([
+            # two sessions in one process, one sender thread each: what the library keeps static is shared between them
+            dict(name='two-sessions', harness='c25_senders', variant='schedp', inproc=True,
+                 quick=dict(args=['pm=t2', 'ops=sb,bs', 'pk=m', 'bound=2'], deadline=60), thorough=dict(args=['pm=t2', 'ops=sbs,bsb', 'pk=m', 'bound=3'], deadline=500)),
+            dict(name='two-sessions-pipelined', harness='c25_senders', variant='schedp', inproc=True,
+                 quick=dict(args=['pm=p2', 'ops=s,s', 'pk=m', 'bound=0'], deadline=60), thorough=dict(args=['pm=p2', 'ops=s,s', 'pk=m', 'bound=1'], deadline=900))] if prop == 'C17' else [])
 
 
 check('C16', title='Outbound sequence numbers are consecutive and persisted',
@@ -41,6 +46,6 @@ check('C17', title='Sent application messages are stored exactly as transmitted'
       technique='explicit-state breadth-first search over event histories replayed on the real Session; store compared with the bytes seen on the scripted socket after every event; plus preemption-bounded exhaustive schedule search of sending against inbound processing over the file store',
       design_ref='DESIGN.md §3 C17',
       text='Same search as C16; after every event, for every sequence number up to the latest + 3, the persister returns exactly the bytes of the application message '
-           'that went on the wire under that number (batches are split by BodyLength), and returns nothing for numbers used by administrative messages or not used at all. ' + _SR,
+           'that went on the wire under that number (batches are split by BodyLength), and returns nothing for numbers used by administrative messages or not used at all. ' + _SR + ' Parts two-sessions: the same schedule search with two Session objects in the process, one sender thread each (threaded: preemption bound 2, pipelined with both writer threads: bound 0, that is every order of the voluntary switches, quick), each session judged on its own wire and store.',
       level_note='As C16; schedule search over the file store with its system calls as scheduling points, preemption bound 2 (quick).', rule=_RULE + '; send-vs-receive: execution = one complete schedule',
       assumptions=_ASSUME + _SRA, parts=_parts('C17', 4, 6))
